@@ -433,8 +433,9 @@ func (e *VerifEtcd) Quiesce(expect []string, timeout time.Duration) bool {
 	}
 }
 
-// busy: some watch goroutine of this fake's cluster is still inside handleWatchEvents or load
-// (it has taken the progress response from the channel but not yet returned to its select).
+// busy: some watch goroutine of this fake's cluster is not (yet) back in watchStream's select:
+// it has taken the progress response from the channel but is still on its way to or inside
+// handleWatchEvents, or it is loading.
 func (e *VerifEtcd) busy() bool {
 	if e.cptr == "" {
 		return false
@@ -448,9 +449,15 @@ func (e *VerifEtcd) busy() bool {
 		}
 		buf = make([]byte, 2*len(buf))
 	}
-	mark := ".(*cluster).watchStream(" + e.cptr
+	// every watch goroutine of this cluster must sit in watchStream's select
+	mark := ".(*cluster).watch(" + e.cptr
 	for _, g := range strings.Split(string(buf), "\n\n") {
-		if strings.Contains(g, mark) && strings.Contains(g, ".(*cluster).handleWatchEvents(") {
+		if !strings.Contains(g, mark) {
+			continue
+		}
+		lines := strings.SplitN(g, "\n", 3)
+		if len(lines) < 2 || !strings.Contains(lines[0], "[select") ||
+			!strings.Contains(lines[1], ".(*cluster).watchStream("+e.cptr) {
 			return true
 		}
 	}
